@@ -76,7 +76,7 @@ def grow (arc : Nat → Nat → Bool) : Nat → List Nat → List Nat → List N
 
 /-- the connected component of `s` inside `nodes` -/
 def closure (nodes : List Nat) (arc : Nat → Nat → Bool) (s : Nat) : List Nat :=
-  grow arc nodes.length nodes [s]
+  grow arc nodes.length (nodes.filter (· != s)) [s]
 
 /-- component labelling: the components in node order (a node not yet inside a recorded
 component starts a new one) -/
